@@ -1087,30 +1087,52 @@ fn gen(w: &World, seed: u64, thorough: bool) -> Vec<String> {
             texts.push(format!("0b{}", big_to_radix(&m, 1, 0)));
         }
     }
-    // ---- numbers longer than 64 bits whose leading 64 bits sit exactly on / just beside a rounding tie, with
-    //      nothing, a single lowest bit, or everything set below them (the sticky-bit cases)
-    for dropped in [1u32, 2, 3, 4, 8, 12, 64, 448, 956, 959, 960, 961] {
-        for q in [1u64 << 52, (1u64 << 52) + 1, (1u64 << 53) - 1, (1u64 << 53) - 2, (1u64 << 52) | (rng.next() & ((1u64 << 52) - 1))] {
-            for low in [0x400u64, 0x3ff, 0x401, 0x7ff, 0x000, 0x001] {
+    // ---- numbers longer than 64 bits, systematically, in every radix (hex, octal, binary):
+    //      heads (the leading 64 bits = 53-bit significand q + 11 low bits): exact tie (low = 0x400) with even q and with
+    //      odd q (incl. q = 2^53-1, which carries into the exponent), just below the tie (0x3ff), just above it (0x401)
+    //      tails (the bits below the 64): all zeros | a single 1 at each of the first 12 dropped positions FOLLOWED BY
+    //      ZEROS | ...0001 | 1000...0001 | all ones         (sticky must be accumulated over all of them)
+    //      lengths 65, 66, 72, 80, 128, 1100 bits (the last one is too large for f64: None), plus the overflow boundary
+    let push_radix = |bits: &[u8], texts: &mut Vec<String>| {
+        let mut bytes = vec![0u8; (bits.len() + 7) / 8];
+        let off = bytes.len() * 8 - bits.len();
+        for (i, b) in bits.iter().enumerate() {
+            if *b == 1 {
+                bytes[(off + i) / 8] |= 1 << (7 - (off + i) % 8);
+            }
+        }
+        texts.push(format!("0x{}", big_to_radix(&bytes, 4, 0)));
+        texts.push(format!("0{}", big_to_radix(&bytes, 3, 0)));
+        texts.push(format!("0b{}", big_to_radix(&bytes, 1, 0)));
+    };
+    let qs = [1u64 << 52, (1u64 << 53) - 2, (1u64 << 52) + 1, (1u64 << 53) - 1, ((1u64 << 52) | (rng.next() & ((1u64 << 52) - 1))) & !1, (1u64 << 52) | (rng.next() & ((1u64 << 52) - 1)) | 1];
+    for dropped in [1usize, 2, 8, 16, 64, 1036, 959, 960, 961] {
+        let boundary = dropped >= 959 && dropped <= 961;
+        for q in qs.iter().take(if boundary { 4 } else { 6 }) {
+            for low in [0x400u64, 0x3ff, 0x401] {
                 let mant = (q << 11) | low;
-                for tail in 0..3u32 {
-                    // the bits below the 64: all zero, only the last one set, all set
-                    let mut bits: Vec<u8> = (0..64).rev().map(|i| ((mant >> i) & 1) as u8).collect();
-                    for j in 0..dropped {
-                        bits.push(match tail { 0 => 0, 1 => (j == dropped - 1) as u8, _ => 1 });
+                let head: Vec<u8> = (0..64).rev().map(|i| ((mant >> i) & 1) as u8).collect();
+                let mut tails: Vec<Vec<u8>> = vec![vec![0; dropped], vec![1; dropped]];
+                let mut last = vec![0u8; dropped];
+                last[dropped - 1] = 1;
+                tails.push(last.clone());
+                if dropped >= 2 {
+                    last[0] = 1;
+                    tails.push(last);
+                }
+                if !boundary {
+                    for j in 0..dropped.min(12) {
+                        let mut t = vec![0u8; dropped];
+                        t[j] = 1;
+                        tails.push(t);
                     }
-                    let mut bytes = vec![0u8; (bits.len() + 7) / 8];
-                    let off = bytes.len() * 8 - bits.len();
-                    for (i, b) in bits.iter().enumerate() {
-                        if *b == 1 {
-                            bytes[(off + i) / 8] |= 1 << (7 - (off + i) % 8);
-                        }
-                    }
-                    match (dropped + tail + low as u32) % 3 {
-                        0 => texts.push(format!("0x{}", big_to_radix(&bytes, 4, 0))),
-                        1 => texts.push(format!("0{}", big_to_radix(&bytes, 3, 0))),
-                        _ => texts.push(format!("0b{}", big_to_radix(&bytes, 1, 0))),
-                    }
+                }
+                tails.sort();
+                tails.dedup();
+                for t in tails {
+                    let mut bits = head.clone();
+                    bits.extend(t);
+                    push_radix(&bits, &mut texts);
                 }
             }
         }
